@@ -4,8 +4,9 @@
    domain set the builder registered under index i.  Here [dm] is C11's model of AhocorasickSlimtrie (AddSet*,
    Build, MatchDomainBitmap over the packed succinct trie, keyword automaton, regexp oracle), fed with exactly the
    sets RoutingMatcherBuilder registers ([b_domsets] of the lowering, as BuildUserspace does), and the oracle
-   hypothesis is DISCHARGED from C11_matcher_packed_partial.  See the comment at the end of the file for what
-   remains and for the mismatch found between the two specs. *)
+   hypothesis is DISCHARGED from C11_matcher_packed_partial, for the RAW name as Match receives it (any letter case,
+   with or without a trailing dot): C01_Spec reads domain conditions on `normalise (p_domain pk)`, which is C11's
+   normalize (c01_normalise_s_norm, bytes_s_norm).  See the comment at the end of the file for what remains. *)
 From Coq Require Import List Arith NArith Bool String Ascii Lia ZifyBool ZifyN ZifyNat.
 From Dae Require Import C11_Spec C11_Model C11_Louds C11_Proofs C11_Layer3 C11_Props.
 From Dae.gen Require Import C11_Extracted.
@@ -187,26 +188,60 @@ Qed.
 Definition c01_idx_ok (p : program) : bool := forallb (fun ds => fst ds <? c11_nbits) (c01_domsets p).
 
 (* the two regexp oracles describe the same regexp engine: p_regex_hits lists the regex patterns of the program
-   that match the packet's domain; rx is C11's MatchString oracle *)
+   that match the packet's NORMALISED domain; rx is C11's MatchString oracle (MatchDomainBitmap calls it on the
+   normalised name) *)
 Definition c01_regex_oracles_agree (p : program) (rx : str -> str -> bool) (pk : packet) : Prop :=
   forall i key vals s, In (i, (key, vals)) (c01_domsets p) -> kind_of_key key = KRegex -> In s vals ->
-    existsb (String.eqb s) (p_regex_hits pk) = rx (bytes s) (bytes (p_domain pk)).
+    existsb (String.eqb s) (p_regex_hits pk) = rx (bytes s) (bytes (normalise (p_domain pk))).
+
+(* C01_Spec.normalise is Link_DomainAdapter.s_norm (textually the same function), hence C11's normalize *)
+Lemma c01_normalise_s_norm : forall s, C01_Spec.normalise s = s_norm s.
+Proof.
+  assert (Hl : forall s, C01_Spec.dom_lower s = s_lower s) by (induction s as [|c s IH]; cbn; [reflexivity|now rewrite IH]).
+  assert (Hs : forall s, C01_Spec.dom_strip_dot s = s_strip_dot s).
+  { induction s as [|c s IH]; [reflexivity|]. destruct s as [|c' s']; [reflexivity|].
+    change (C01_Spec.dom_strip_dot (String c (String c' s'))) with (String c (C01_Spec.dom_strip_dot (String c' s'))).
+    change (s_strip_dot (String c (String c' s'))) with (String c (s_strip_dot (String c' s'))). now rewrite IH. }
+  intros s. unfold C01_Spec.normalise, s_norm. now rewrite Hs, Hl.
+Qed.
+
+Lemma c01_bytes_normalise : forall s, bytes (normalise s) = normalize (bytes s).
+Proof. intros s. rewrite c01_normalise_s_norm. apply bytes_s_norm. Qed.
+
+(* a name already in normal form is read as it is *)
+Lemma c01_normalise_fixed : forall d, normalized (bytes d) -> C01_Spec.normalise d = d.
+Proof. intros d H. apply bytes_inj. rewrite c01_bytes_normalise. exact H. Qed.
+
+(* the only names that normalise to the empty name: "" and the root "." *)
+Lemma c01_normalise_nonempty : forall d, d <> ""%string -> d <> "."%string -> normalise d <> ""%string.
+Proof. intros d H1 H2 H. rewrite c01_normalise_s_norm in H. destruct (s_norm_empty d H); contradiction. Qed.
+
+(* C01's alphabet premise of wf_packet is C11's name_ok *)
+Lemma c01_alphabet_name_ok : forall d, domain_alphabet_ok d = name_ok (bytes d).
+Proof.
+  induction d as [|c d IH]; [reflexivity|]. cbn [domain_alphabet_ok bytes name_ok forallb]. fold (name_ok (bytes d)).
+  rewrite IH. f_equal. unfold domain_char_ok, name_char, pat_char, is_lower, is_upper, is_digit, in_range, ch_dash, ch_us, ch_dot.
+  cbv zeta. destruct ((97 <=? N_of_ascii c) && (N_of_ascii c <=? 122)), ((65 <=? N_of_ascii c) && (N_of_ascii c <=? 90)),
+    ((48 <=? N_of_ascii c) && (N_of_ascii c <=? 57)), (N_of_ascii c =? 45), (N_of_ascii c =? 95), (N_of_ascii c =? 46); reflexivity.
+Qed.
 
 (* ---------- the oracle hypothesis of C01, discharged ---------- *)
 Lemma c01_oracle_discharged : forall p pk rx_ok rx m,
   kw_nonempty (c01_sets p) = true -> sets_size_ok (c01_sets p) -> sets_ok rx_ok (c01_sets p) = true ->
   c11_build rx_ok (c01_sets p) = Some m ->
   c01_idx_ok p = true ->
-  name_ok (bytes (p_domain pk)) = true -> normalized (bytes (p_domain pk)) ->
+  name_ok (bytes (p_domain pk)) = true -> p_domain pk <> "."%string ->
   c01_regex_oracles_agree p rx pk ->
   C01_domain_oracle_agrees p (c01_dm rx m) pk.
 Proof.
-  intros p pk rx_ok rx m Hk Hs Ho Hb Hidx Hn Hz Hrx b Hl i key vals Hin.
+  intros p pk rx_ok rx m Hk Hs Ho Hb Hidx Hn Hroot Hrx b Hl i key vals Hin.
   destruct (String.eqb (p_domain pk) "") eqn:Ee.
   - (* empty domain: no lookup, and no pattern holds *)
+    apply String.eqb_eq in Ee. rewrite Ee. cbn [normalise dom_strip_dot dom_lower].
     symmetry. apply not_true_is_false. intro H. apply existsb_exists in H as [s [_ H]].
-    unfold C01_Spec.domain_holds in H. now rewrite Ee in H.
+    unfold C01_Spec.domain_holds in H. cbn in H. discriminate H.
   - apply String.eqb_neq in Ee.
+    pose proof (c01_normalise_nonempty _ Ee Hroot) as Hnn.
     destruct (c11_build_bit rx_ok rx (c01_sets p) Hk Hs Ho) as [m' [Hb' Hbit]].
     rewrite Hb in Hb'. inversion Hb'; subst m'. clear Hb'.
     assert (Hdom : c01_domsets p = b_domsets b) by (unfold c01_domsets; now rewrite Hl).
@@ -220,10 +255,10 @@ Proof.
     { unfold c01_sets. rewrite Hdom. now apply in_map. }
     pose proof (bit_nodup rx (c01_sets p) (bytes (p_domain pk)) _ (c01_sets_nodup p) Hin') as Hb1.
     change (ps_idx (pset_of (i, (key, vals)))) with i in Hb1. rewrite Hb1. clear Hb1.
-    unfold set_matches, pset_of, ps_kind, ps_pats. cbn [fst snd]. rewrite Hz.
+    unfold set_matches, pset_of, ps_kind, ps_pats. cbn [fst snd]. rewrite <- c01_bytes_normalise.
     rewrite existsb_map'. apply existsb_ext_in. intros s Hs'.
     rewrite domain_holds_s, <- kind_of_key_dkind. symmetry.
-    apply s_domain_holds_pat_matches; [exact Ee | now apply normalized_pat_ok |].
+    apply s_domain_holds_pat_matches; [exact Hnn | rewrite c01_bytes_normalise; now apply normalize_pat_ok |].
     intro Hk'. rewrite <- Hdom in Hin. exact (Hrx i key vals s Hin Hk' Hs').
 Qed.
 
@@ -236,7 +271,8 @@ Proof.
 Qed.
 
 (* ---------- the composed theorem ---------- *)
-(* For every well-formed routing program and every packet description, the code path
+(* For every well-formed routing program and every packet description — the domain in ANY letter case, with or
+   without a trailing dot, also no domain at all — the code path
      patchMustOutbound -> RulesBuilder.Apply + add* -> BuildUserspace (domain sets -> AddSet -> Build) ->
      RoutingMatcher.Match (MatchDomainBitmap over the packed trie / automaton / regexps)
    returns the decision of the first matching rule.  No oracle hypothesis on the bitmap. *)
@@ -247,23 +283,23 @@ Theorem Link_route_with_real_domain_matcher :
     kw_nonempty (c01_sets p) = true ->            (* no empty keyword (open finding C11/keyword-empty) *)
     sets_size_ok (c01_sets p) ->                  (* key bytes per index < 2^63 (packed trie sample width) *)
     sets_ok rx_ok (c01_sets p) = true ->          (* every regexp compiles (else Build fails) *)
-    name_ok (bytes (p_domain pk)) = true ->       (* the domain is over the host-name alphabet *)
+    name_ok (bytes (p_domain pk)) = true ->       (* the raw name is over the host-name alphabet (= domain_alphabet_ok) *)
     (* what the composition adds *)
     c01_idx_ok p = true ->                        (* domain sets below bit 1024 (F9: more -> Go panics) *)
-    normalized (bytes (p_domain pk)) ->           (* lower case, no trailing dot: see the MISMATCH below *)
+    p_domain pk <> "."%string ->                  (* not the root name: see the end of the file *)
     c01_regex_oracles_agree p rx pk ->            (* one regexp engine behind both oracles *)
     exists m, c11_build rx_ok (c01_sets p) = Some m /\
               model_route p (c01_dm rx m) pk = Ok (decide p pk).
 Proof.
-  intros p pk rx_ok rx Hwf Hk Hs Ho Hn Hidx Hz Hrx.
+  intros p pk rx_ok rx Hwf Hk Hs Ho Hn Hidx Hroot Hrx.
   destruct (c11_build_bit rx_ok rx (c01_sets p) Hk Hs Ho) as [m [Hb _]].
   exists m. split; [exact Hb|].
   apply C01_scan_lower; [exact Hwf|].
-  exact (c01_oracle_discharged p pk rx_ok rx m Hk Hs Ho Hb Hidx Hn Hz Hrx).
+  exact (c01_oracle_discharged p pk rx_ok rx m Hk Hs Ho Hb Hidx Hn Hroot Hrx).
 Qed.
 Print Assumptions Link_route_with_real_domain_matcher.
 
-(* ---------- non-vacuity and the mismatch, on concrete programs ---------- *)
+(* ---------- non-vacuity, on concrete programs ---------- *)
 Definition lk_out (n : string) : outbound := {| o_name := n; o_params := [] |}.
 Definition lk_prog (k : N) (dk : dkind) (pat : string) : program :=
   {| pr_rules := [ {| r_conds := [ {| c_kind := FDomain; c_neg := false; c_params := [(k, VDomain dk pat)] |} ];
@@ -306,39 +342,37 @@ Example Link_C01_C11_nonvacuous :
   wf_program p = true /\ kw_nonempty (c01_sets p) = true /\ sets_size_ok (c01_sets p) /\
   sets_ok lk_rx_ok (c01_sets p) = true /\ c01_idx_ok p = true /\
   (forall d, In d ["a.b.c"; "ab.c"; ""]%string ->
-     name_ok (bytes d) = true /\ normalized (bytes d) /\ c01_regex_oracles_agree p lk_rx (lk_pk d)) /\
+     name_ok (bytes d) = true /\ d <> "."%string /\ c01_regex_oracles_agree p lk_rx (lk_pk d)) /\
   exists m, c11_build lk_rx_ok (c01_sets p) = Some m /\
     map (fun d => model_route p (c01_dm lk_rx m) (lk_pk d)) ["a.b.c"; "ab.c"; ""]%string
     = [Ok (2, 0, false); Ok (0, 0, false); Ok (0, 0, false)].
 Proof.
   cbv zeta. split; [lk_c|]. split; [lk_c|]. split; [lk_size|]. split; [lk_c|]. split; [lk_c|]. split.
-  - intros d [<-|[<-|[<-|[]]]]; (split; [lk_c | split; [lk_c | lk_rxagree]]).
+  - intros d [<-|[<-|[<-|[]]]]; (split; [lk_c | split; [discriminate | lk_rxagree]]).
   - apply with_build. lk_c.
 Qed.
 
-(* MISMATCH between the two specs (finding).  C01_Spec.domain_holds compares the packet's domain with the
-   pattern byte for byte; C11 (spec, model and the Go code: strings.ToLower(strings.TrimSuffix(domain, ".")))
-   compares the NORMALISED domain.  ControlPlane.Route hands Match the sniffed / upstream host name as it is.
-   So for a domain with an upper-case letter or a trailing dot the real pipeline and C01's `decide` differ, and
-   C01_scan_lower is silent there (its oracle hypothesis cannot be met by the real matcher).  Witnesses: rule
-   `domain(full: a.b) -> proxy`, domains "A.b" and "a.b.": every hypothesis of the composed theorem except
-   [normalized] holds, the pipeline answers proxy, `decide` answers the fallback. *)
-Theorem Link_C01_C11_normalisation_mismatch :
+(* REPAIRED MISMATCH (was Link_C01_C11_normalisation_mismatch).  C01_Spec used to compare the packet's domain with
+   the patterns byte for byte while C11 and the Go code compare the normalised name; C01_Spec now reads domain
+   conditions on `normalise (p_domain pk)`.  The former witnesses — rule `domain(full: a.b) -> proxy`, domains "A.b"
+   and "a.b." (not in normal form) — now satisfy every premise of the composed theorem, and the pipeline and
+   `decide` agree on proxy. *)
+Theorem Link_C01_C11_normalisation_agrees :
   let p := lk_prog 1 DFull "a.b" in
   wf_program p = true /\ kw_nonempty (c01_sets p) = true /\ sets_size_ok (c01_sets p) /\
   sets_ok lk_rx_ok (c01_sets p) = true /\ c01_idx_ok p = true /\
   forall d, In d ["A.b"; "a.b."]%string ->
-    name_ok (bytes d) = true /\ c01_regex_oracles_agree p lk_rx (lk_pk d) /\
+    name_ok (bytes d) = true /\ d <> "."%string /\ c01_regex_oracles_agree p lk_rx (lk_pk d) /\
     ~ normalized (bytes d) /\
-    decide p (lk_pk d) = (0, 0, false) /\
+    decide p (lk_pk d) = (2, 0, false) /\
     exists m, c11_build lk_rx_ok (c01_sets p) = Some m /\
-      model_route p (c01_dm lk_rx m) (lk_pk d) = Ok (2, 0, false).
+      model_route p (c01_dm lk_rx m) (lk_pk d) = Ok (decide p (lk_pk d)).
 Proof.
   cbv zeta. split; [lk_c|]. split; [lk_c|]. split; [lk_size|]. split; [lk_c|]. split; [lk_c|].
   intros d [<-|[<-|[]]];
-    (split; [lk_c | split; [lk_rxagree | split; [intro H; vm_compute in H; discriminate | split; [lk_c | apply with_build; lk_c]]]]).
+    (split; [lk_c | split; [discriminate | split; [lk_rxagree | split; [intro H; vm_compute in H; discriminate | split; [lk_c | apply with_build; lk_c]]]]]).
 Qed.
-Print Assumptions Link_C01_C11_normalisation_mismatch.
+Print Assumptions Link_C01_C11_normalisation_agrees.
 
 (* The alphabet premise [name_ok] (C11's quantifier: "host name made of letters, digits, '-', '_', '.'") cannot
    be dropped either: the '^' sentinel is a valid trie character, MatchDomainBitmap does not validate the domain
@@ -355,14 +389,27 @@ Proof.
 Qed.
 Print Assumptions Link_C01_C11_alphabet_needed.
 
+(* The root name stays outside: for the raw name "." Match calls MatchDomainBitmap on the empty name, where C11 (and
+   the Go code) let `full: ""`, `suffix: ""` and a regexp matching the empty string match, while C01_Spec.domain_holds
+   says no pattern holds for the empty normalised name. *)
+Theorem Link_C01_C11_root_name_needed :
+  let p := lk_prog 1 DFull "" in let d := "."%string in
+  wf_program p = true /\ name_ok (bytes d) = true /\
+  decide p (lk_pk d) = (0, 0, false) /\
+  exists m, c11_build lk_rx_ok (c01_sets p) = Some m /\
+    model_route p (c01_dm lk_rx m) (lk_pk d) = Ok (2, 0, false).
+Proof. cbv zeta. split; [lk_c|]. split; [lk_c|]. split; [lk_c|]. apply with_build. lk_c. Qed.
+Print Assumptions Link_C01_C11_root_name_needed.
+
 (* DISCHARGED: C01_domain_oracle_agrees (the whole C10/C11 interface hypothesis of C01_scan_lower), from
      C11_matcher_packed_partial + the fresh-index invariant of the builder (lower_program_dinv, proved here) +
-     the string/byte adapters of Link_DomainAdapter.v.
+     the string/byte adapters of Link_DomainAdapter.v (normalise = C11's normalize: any case, trailing dot).
    REMAINING (all explicit in Link_route_with_real_domain_matcher):
-     - C11's side conditions: kw_nonempty, sets_size_ok, sets_ok (regexps compile), name_ok of the domain;
+     - C11's side conditions: kw_nonempty, sets_size_ok, sets_ok (regexps compile), name_ok of the raw domain
+       (= C01's domain_alphabet_ok, c01_alphabet_name_ok; cannot be dropped: Link_C01_C11_alphabet_needed);
      - c01_idx_ok: domain sets below bit 1024 (implied by <= 1024 match-sets: c01_idx_ok_of_rule_count; C01's
        wf_program has no such bound; beyond it the Go builder panics, finding F9);
-     - normalized: the domain is lower case without trailing dot (MISMATCH of the two specs, witnessed above);
+     - the raw name is not the root name "." (Link_C01_C11_root_name_needed);
      - c01_regex_oracles_agree: p_regex_hits (C01) and rx (C11) are answers of the same regexp engine.
    NOT COVERED by either property's harness: the []uint32 packing loop of MatchDomainBitmap, modelled here by
    Link_DomainAdapter.bitmap_words (C11's model exposes the per-index answer only).
